@@ -1,6 +1,8 @@
 /* pack_drv.c - conformance driver for librfn/pack.c (C12).  Script in, ndjson out.
  * The buffer is an exactly sized heap block (ASan redzones) between two guard words that are checked after every call. */
+#define _GNU_SOURCE
 #include "drv.h"
+#include <sys/mman.h>
 #include <librfn/pack.h>
 
 static uint8_t *area, *buf;
@@ -8,8 +10,32 @@ static int size;
 static rf_pack_t pk;
 #define GUARD 16
 
+static uint8_t *bigmap;
+static size_t bigmaplen;
+static int is_big;
+#define WINDOW 64
+/* a buffer of 2^31 + extra bytes: address space only (PROT_NONE, never touched) except for the first page, of which the
+ * first WINDOW bytes are the modelled window */
+static void reset_big(unsigned extra)
+{
+	if (bigmap) munmap(bigmap, bigmaplen);
+	free(area); area = NULL;
+	bigmaplen = (size_t)0x80000000u + extra + 8192;
+	bigmap = mmap(NULL, bigmaplen, PROT_NONE, MAP_PRIVATE | MAP_ANONYMOUS | MAP_NORESERVE, -1, 0);
+	if (bigmap == MAP_FAILED || mprotect(bigmap, 4096, PROT_READ | PROT_WRITE)) { fprintf(stderr, "pack_drv: cannot reserve address space\n"); exit(3); }
+	buf = bigmap;
+	size = WINDOW;
+	is_big = 1;
+	for (int i = 0; i < WINDOW; i++)
+		buf[i] = (uint8_t)(((i + 1) * 37 + 11) % 256);
+	memset(buf + WINDOW, 0xC3, 4096 - WINDOW);
+	rf_pack_init(&pk, buf, 0x80000000u + extra);
+	printf("{\"e\":\"ResetBig\",\"window\":%d,\"extra\":%u}\n", WINDOW, extra);
+}
 static void reset(int sz)
 {
+	if (bigmap) { munmap(bigmap, bigmaplen); bigmap = NULL; }
+	is_big = 0;
 	free(area);
 	size = sz;
 	area = malloc(sz + 2 * GUARD);
@@ -22,6 +48,10 @@ static void reset(int sz)
 }
 static int guards_ok(void)
 {
+	if (is_big) {
+		for (int i = WINDOW; i < 4096; i++) if (buf[i] != 0xC3) return 0;
+		return 1;
+	}
 	for (int i = 0; i < GUARD; i++)
 		if (area[i] != 0xC3 || buf[size + i] != 0xC3)
 			return 0;
@@ -66,7 +96,7 @@ static void do_packint(const char *op, const uint8_t *b, int n)
 static void do_packbytes(int n, int data)
 {
 	static uint8_t src[1 << 17];
-	for (int i = 0; i < n; i++) src[i] = (uint8_t)(((i + 1) * 16 + 1) % 256);
+	for (int i = 0; data && i < n; i++) src[i] = (uint8_t)(((i + 1) * 16 + 1) % 256);
 	rf_pack_bytes(&pk, data ? src : NULL, n);
 	printf("{\"e\":\"PackBytes\",\"a\":[%d,\"%s\"],\"r\":[]", n, data ? "data" : "null");
 	tail();
@@ -83,8 +113,8 @@ static void do_packbytesv(const uint8_t *b, int n)
 }
 static void do_unpackbytes(int n, int dst)
 {
-	uint8_t *d = malloc(n ? n : 1);   /* exactly sized destination */
-	memset(d, 0x77, n);
+	uint8_t *d = malloc(dst && n ? n : 1);   /* exactly sized destination */
+	if (dst) memset(d, 0x77, n);
 	rf_unpack_bytes(&pk, dst ? d : NULL, n);
 	printf("{\"e\":\"UnpackBytes\",\"a\":[%d,\"%s\"],\"r\":", n, dst ? "data" : "null");
 	bytes_json(d, dst ? n : 0);
@@ -170,9 +200,40 @@ static void huge(void)
 		do_unpack("UnpackU32le");
 	}
 }
+/* skips and pads of 2^30 bytes and more (no memory is involved: NULL source / destination, nothing fits) */
+static void huger(void)
+{
+	uint8_t b[2] = { 1, 2 };
+	reset(16);
+	do_unpackbytes(0x50000000, 0); do_unpack("UnpackU16le"); do_packint("PackU16le", b, 2); do_unpackbytes(0x2fffff00, 0); do_unpack("UnpackU8");
+	reset(16);
+	do_unpack("UnpackU32le"); do_packbytes(0x3fffffff, 0); do_packbytes(1, 0); do_packbytes(0x20000000, 0); do_packbytes(0x1fffff00, 0); do_unpack("UnpackChar");
+	reset(0);
+	do_packbytes(0x7ffffff0, 0); do_packint("PackU16le", b, 2); do_unpack("UnpackU32le");
+	reset(40);
+	do_packbytes(8, 1); do_unpackbytes(0x40000000, 0); do_unpackbytes(0x10, 1); do_unpackbytes(0x3ffff000, 0); do_unpack("UnpackU16le");
+}
+/* buffers of 2^31 bytes and more: items at the start fit */
+static void bigbuf(void)
+{
+	static const unsigned extras[] = { 0, 1, 2, 70000, 0x7fffffffu };
+	uint8_t b4[4] = { 0x81, 0x02, 0xfe, 0x7f }, b2[2] = { 0xab, 0xcd };
+	for (unsigned k = 0; k < sizeof(extras) / sizeof(extras[0]); k++) {
+		reset_big(extras[k]);
+		do_packint("PackU16le", b2, 2); do_packint("PackU32le", b4, 4); do_packbytes(9, 1); do_packint("PackU16be", b2, 2);
+		do_packint("PackS32le", b4, 4); do_packbytes(5, 0); do_packint("PackS16le", b2, 2);
+		rf_pack_init(&pk, buf, 0x80000000u + extras[k]);
+		printf("{\"e\":\"Rewind\",\"a\":[],\"r\":[]"); tail();
+		do_unpack("UnpackU16le"); do_unpack("UnpackU32le"); do_unpackbytes(9, 1); do_unpack("UnpackU16le"); do_unpack("UnpackU32le");
+		do_unpackbytes(3, 0); do_unpack("UnpackChar"); do_unpack("UnpackS8"); do_unpack("UnpackU8");
+	}
+	reset(4);
+}
 static void randomseq(int nexec, int nops)
 {
 	huge();
+	huger();
+	bigbuf();
 	static const char *un[] = { "UnpackChar", "UnpackS8", "UnpackU8", "UnpackU16le", "UnpackU32le" };
 	for (int x = 0; x < nexec; x++) {
 		reset(drv_below(4) ? drv_below(24) : drv_below(65));
